@@ -32,6 +32,10 @@ def run(ctx):
         cases.append(mk_case("c05_%d" % sid, [("query", cmd_query(q), sid), ("ping", cmd_ping(), (sid + 100) % 256),
                                              ("prepare", cmd_prepare(b"p"), 255 - sid)],
                              ["q " + prog, "p reply 1 2 %s %s 1 %s" % (c1, c1, c1)], lim=lim, hs_seq=rng.choice([1, 1, 255, 254])))
+    # a packet of more than 64 KiB / 1 MiB in the middle of a reply: the packets after it continue the count
+    for big in (70000, (1 << 20) + 1):
+        prog = "start 1 %s wr 1 s:61 p wr 1 b:r%dx61 p wr 1 s:62 p wr 1 s:63 p fin" % (col(b"a", 252, 0), big)
+        cases.append(mk_case("c05big_%d" % big, [("query", cmd_query(b"q"), 9), ("ping", cmd_ping(), 0)], ["q " + prog]))
     # every kind of command (the library answers some itself), each preceded by exchanges that leave the
     # counter at a different value, with arbitrary request ids: each reply must restart from its own request
     c2 = col(b"b", 253, 0)
